@@ -137,6 +137,17 @@ def float_rules():
     return ok, bad
 
 
+def pattern_shapes(sign):
+    """pattern checks of cfg 16 (std::regex header code in the IR): -w ^[a-c]+[0-9]$, -k x.?y; the value is symbolic, assumed to match
+    (sign '+') or not to match (sign '-') by a reference predicate in the harness"""
+    out = []
+    for n in (1, 2, 3, 4):
+        for words in (['-w', S(0)], ['--word=' + S(0)]):
+            out.append(('hx_pa', [16, 0], lab('pattern w%s/len%d' % (sign, n), words), {'pa_tmpl': tmpl('patw' + sign, ['w=$0'] if sign == '+' else [], ['s%d' % n], words)}))
+        out.append(('hx_pa', [16, 0], lab('pattern k%s/len%d' % (sign, n), ['-k', S(0)]), {'pa_tmpl': tmpl('patk' + sign, ['k=$0'] if sign == '+' else [], ['s%d' % n], ['-k', S(0), '-f'])}))
+    return [o for o in out if not (sign == '+' and ('/len1/' in o[2] or ('pattern k' in o[2] and '/len4/' in o[2])))]      # no member of that length
+
+
 def lab(prefix, words):
     return prefix + '/' + ' '.join(w.replace('\x01', '@').replace('\x02', '|') for w in words)
 
@@ -238,6 +249,7 @@ def c02_shapes(tier):
         shapes.append(('hx_pa', [11, 0], lab('c02/cfg11', words), {'pa_tmpl': tmpl('throw', [], slots, words)}))
     for words, slots, items in float_rules()[1]:
         shapes.append(('hx_pa', [15, 0], lab('c02/cfg15', words), {'pa_tmpl': tmpl('throw', [], slots, words)}))
+    shapes += [(e, a, 'c02/' + l, d) for (e, a, l, d) in pattern_shapes('-')]
     # abbreviations disabled
     for words, slots in ((['--numbe', S(0)], ['d2']), (['--fla'], []), (['--nam=' + S(0)], ['s2'])):
         shapes.append(('hx_pa', [0, 1], lab('c02/noabbr', words), {'pa_tmpl': tmpl('throw', [], slots, words)}))
@@ -262,6 +274,7 @@ def c03_shapes(tier):
     shapes.append(('hx_pa', [11, 0], 'c03/cfg11 no tuple', {'pa_tmpl': tmpl('ok', ['f=1'], [], ['-f'])}))
     for words, slots, items in float_rules()[0]:
         shapes.append(('hx_pa', [15, 0], lab('c03/cfg15', words), {'pa_tmpl': tmpl('ok', items, slots, words)}))
+    shapes += [(e, a, 'c03/' + l, d) for (e, a, l, d) in pattern_shapes('+')]
     # full keys with abbreviations disabled
     for words, slots, items in ((['--number', S(0), '--flag'], ['d2'], ['n=#0', 'f=1']), (['--name=' + S(0)], ['s3'], ['s=$0'])):
         shapes.append(('hx_pa', [0, 1], lab('c03/noabbr', words), {'pa_tmpl': tmpl('ok', items, slots, words)}))
@@ -373,6 +386,10 @@ def c06_shapes(tier):
     for words, slots, items in ((['-z', S(0)], ['r1:0:9'], ['vb=#0']), (['-z', S(0)], ['r2:10:12'], ['vb=#0']), (['-z', S(0) + ',' + S(1)], ['r2:10:20', 'r2:60:70'], ['vb=#0,#1']),
                                 (['-z', S(0), '--vbool', S(1)], ['r3:127:129', 'r3:190:193'], ['vb=#0,#1'])):
         shapes.append(('hx_pa', [6, 0], lab('c06/vbool', words), {'pa_tmpl': tmpl('ok', items, slots, words)}))
+    # a vector<bool> destination that already has 1..3 positions: every position given is set afterwards (the vector grows)
+    for n in (1, 2, 3):
+        for words, slots, items in ((['-z', S(0)], ['r1:0:5'], ['vb=#0']), (['-z', S(0) + ',' + S(1)], ['r1:0:3', 'r1:0:4'], ['vb=#0,#1']), (['-z', S(0), '-f', '--vbool=' + S(1)], ['r1:0:2', 'r2:10:11'], ['vb=#0,#1', 'f=1'])):
+            shapes.append(('hx_pa', [6, (n << 7) << 8], lab('c06/vbool presized %d' % n, words), {'pa_tmpl': tmpl('ok', items, slots, words)}))
     # key-value destination: pairs "k,v" separated by ';' ; previous content {1:5}; keys in ascending ranges so that the map order is known
     KR = ['r2:10:19', 'r2:20:29', 'r2:30:39', 'd2', 'd2', 'd2']
     for words, items, opt in ((['-m', S(0) + ',' + S(3)], ['kv=1:5+#0:#3'], 0), (['-m', S(0) + ',' + S(3) + ';' + S(1) + ',' + S(4)], ['kv=1:5+#0:#3+#1:#4'], 0),
